@@ -43,7 +43,10 @@ class Sim:
 LIBTYPES = [("id", 16), ("arr", 8), ("mref", 8), ("cfg", 32), ("cmd", 24)]
 
 
-def gen_case(rng, cxx=True, fail=True, maxops=14, lib=None, shape="A"):
+def gen_case(rng, cxx=True, fail=True, maxops=14, lib=None, shape="A", pair=False):
+    """pair: the history starts with two (sometimes three) filled buffers of kind a and draws buffer::move / copy
+    between DIFFERENT live handles more often (two buffers of the same traits that both hold elements are rare in
+    a plain random history: handles are mostly empty or share one buffer after a clone)"""
     szs = rng.choice([(8, 16), (16, 24), (24, 8), (8, 24), (16, 8), (8, 8)])
     if lib:
         szs = (lib[1], rng.choice([8, 16, 24]))
@@ -94,9 +97,20 @@ def gen_case(rng, cxx=True, fail=True, maxops=14, lib=None, shape="A"):
             ln += rng.choice([1, 4, s // 2])
         return ln
 
+    if pair:
+        for h in rng.sample(range(NH), rng.choice([2, 2, 3])):
+            k = "a" if rng.random() < 0.9 else "b"
+            nb = rng.choice([0, 0, 0, 160]) if not lib else 0
+            f = rng.choice([0, 0, 0, 2])
+            cap = cap_of(nb) // sz[k]
+            n = rng.choice([0, 1, 1, 2, 3, cap // 2, max(0, cap - 1), cap])
+            ops.append(["new", h, k, nb, f])
+            if n:
+                ops.append(["app", h, n * sz[k]])
+            sim.h[h] = {"kind": k, "n": n, "cap": cap_of(nb)}
     for _ in range(nops):
         live = [i for i in range(NH) if sim.h[i] is not None]
-        if not live or rng.random() < 0.12:
+        if not live or rng.random() < (0.04 if pair else 0.12):
             h = rng.randrange(NH)
             k = rng.choice(["a", "a", "a", "b", "r"])
             if rng.random() < 0.5 or fmode == "share":
@@ -120,6 +134,8 @@ def gen_case(rng, cxx=True, fail=True, maxops=14, lib=None, shape="A"):
         names = ["set", "set", "set", "ins", "ins", "cut", "cut", "det", "det", "cln", "cln", "rel", "res", "res"]
         if cxx:
             names += ["trim", "trim", "skip", "skip", "app", "slen", "slen", "cpy", "cpy", "mov"]
+        if cxx and pair:
+            names += ["mov"] * 6 + ["cpy"] * 5 + ["app", "app"]
         if cxx and not lib and script == "-":
             # C++ unique_array<T> on arrays of kind a (constructors of the template never fail)
             names += ["uins", "uins", "ures"]
@@ -221,6 +237,9 @@ def gen_case(rng, cxx=True, fail=True, maxops=14, lib=None, shape="A"):
                 b["cap"] = max(b["cap"], cap_of(nn * s))
         elif o in ("cpy", "mov"):
             g = rng.randrange(NH)
+            others = [i for i in range(NH) if sim.h[i] is not None and sim.h[i] is not b]
+            if pair and others and rng.random() < 0.85:
+                g = rng.choice(others)
             ops.append([o, h, g])
             gb = sim.h[g]
             if b and gb and gb is not b and gb["kind"] == k and gb["n"] * sz[k] <= b["cap"]:
@@ -304,6 +323,72 @@ def sweep_cases(tier="quick", shape="A"):
             for mask in range(0, 1 << n):
                 ops += ["itest", mask, n, names]
             out.append(" ".join(["A8", "B16", "s-"] + [str(x) for x in ops]))
+    return out
+
+
+def pair_cases(tier="quick", shape="A"):
+    """TWO buffers: buffer::move / buffer::copy from handle 1 into handle 0 in every fill combination (target empty /
+    shorter / equal / longer than the source, source empty), elements made by the caller (append + construct), then one
+    more operation on the target or on the source (whose stale bytes lie behind _used = 0 after a move) and the release
+    of both; target or source shared with a third handle; blocks of 64 and 192 bytes (target too small); source of the
+    other element type / raw; the buffer itself as source (same handle, clone)"""
+    out = []
+    quick = tier == "quick"
+    for s in (8, 16, 24):
+        other = {8: 16, 16: 24, 24: 8}[s]
+        cap = 64 // s
+        big = 192 // s
+        hdr = ["%s%d" % (shape, s), "B%d" % other]
+        fills = range(0, cap + 1)
+        if quick and s == 8:
+            fills = (0, 1, 3, 7, 8)
+
+        def mk(h, k, n, nbytes=0, flags=0, es=s):
+            return ["new", h, k, nbytes, flags] + (["app", h, n * es] if n else [])
+
+        def emit(script, ops):
+            out.append(" ".join(hdr + ["s" + script] + [str(x) for x in ops]))
+        scripts = {"A": ("-", "0", "10", "110"), "F": ("-",), "I": ("-", "10")}[shape]
+        posts = ([], ["trim", 0, s], ["skip", 0, s], ["app", 0, s], ["app", 1, s], ["slen", 1, 2 * s], ["ins", 1, s, s],
+                 ["set", 1, "a", s, s, "d"], ["mov", 1, 0], ["cpy", 1, 0], ["mov", 0, 1], ["cpy", 0, 1], ["uins", 1, 1])
+        for n0 in fills:
+            for n1 in fills:
+                pre = mk(0, "a", n0) + mk(1, "a", n1)
+                for post in posts:
+                    emit("-", pre + ["mov", 0, 1] + post)
+                    for sc in scripts:
+                        if sc == "-" or not post or post[0] in ("cpy", "slen"):
+                            emit(sc, pre + ["cpy", 0, 1] + post)
+                # target / source shared with a third handle, immutable, NoCopy
+                for o in ("mov", "cpy"):
+                    emit("-", pre + ["cln", 2, 0, o, 0, 1])
+                    emit("-", pre + ["cln", 2, 1, o, 0, 1])
+                    emit("-", pre + ["cln", 2, 1, o, 0, 1, "det", 2, n1 * s])
+                    for f0, f1 in ((1, 0), (0, 1), (2, 2), (3, 3)):
+                        emit("-", mk(0, "a", n0, 0, f0) + mk(1, "a", n1, 0, f1) + [o, 0, 1])
+        # blocks of different capacity: target too small for the source / large target, small source
+        for n0 in (0, 1, cap):
+            for n1 in (0, 1, cap, cap + 1, big):
+                for o in ("mov", "cpy"):
+                    emit("-", mk(0, "a", n0) + mk(1, "a", n1, 160) + [o, 0, 1])
+                    emit("-", mk(0, "a", n1, 160) + mk(1, "a", n0) + [o, 0, 1])
+                    emit("-", mk(0, "a", n1, 160) + mk(1, "a", n0) + [o, 0, 1, o, 1, 0])
+        # other element type / raw data on one side (refused: nothing may be finalised), raw to raw
+        for n0 in (0, 1, cap):
+            for n1 in (0, 1, 2):
+                for o in ("mov", "cpy"):
+                    emit("-", mk(0, "a", n0) + mk(1, "b", min(n1, 64 // other), es=other) + [o, 0, 1])
+                    emit("-", mk(0, "b", min(n1, 64 // other), es=other) + mk(1, "a", n0) + [o, 0, 1])
+                    emit("-", mk(0, "a", n0) + ["new", 1, "r", 0, 0, "set", 1, "r", 0, n1 * s, "d"] + [o, 0, 1])
+                    emit("-", ["new", 0, "r", 0, 0, "set", 0, "r", 0, n1 * s, "d"] + mk(1, "a", n0) + [o, 0, 1])
+                    emit("-", ["new", 0, "r", 0, 0, "set", 0, "r", 0, n1 * s, "d", "new", 1, "r", 0, 0,
+                               "set", 1, "r", 0, n0 * s, "d"] + [o, 0, 1])
+        # the buffer itself as source
+        for n0 in (0, 1, cap):
+            for o in ("mov", "cpy"):
+                emit("-", mk(0, "a", n0) + [o, 0, 0])
+                emit("-", mk(0, "a", n0) + ["cln", 1, 0, o, 0, 1])
+                emit("-", mk(0, "a", n0) + [o, 0, 1] + mk(1, "a", 1) + [o, 1, 2])
     return out
 
 
@@ -495,6 +580,16 @@ class C05(DiffProperty):
             "used data content again (insert strictly beyond the end, set beyond the end, set_length, unique_array insert/resize) "
             "at the positions up to 3 behind the end, and a two-round shrink/grow; IMMUTABLE buffers (private/shared, 64 and 192 "
             "bytes) x every operation that looks at the flag x every size; 800 + 500 random histories of shapes F and I; "
+            "TWO BUFFERS (pair_cases, every shape, element sizes 8/16/24): buffer::move and buffer::copy from handle 1 into "
+            "handle 0 in EVERY fill combination of a 64-byte target and a 64-byte source (target empty / shorter / equal / "
+            "longer than the source, source empty; elements made by the caller), followed by nothing or one more operation "
+            "(trim, skip, append on the target; append, set_length, insert, set, unique_array insert on the emptied source "
+            "whose stale element bytes lie behind _used; move / copy back or again), copy with 2-4 constructor-failure "
+            "scripts, target or source shared with a third handle (then detached), immutable / NoCopy flags, blocks of 64 "
+            "and 192 bytes (source larger than the target's block: refused), source of the other element type / raw data "
+            "on either side / raw to raw (refused resp. plain), the buffer itself as source (same handle, clone); plus "
+            "1500 random histories that start with two or three filled buffers and draw move / copy between different "
+            "live handles with high weight (all shapes and library element types); "
             "thorough: full sweeps + 60000 + 20000 + 20000 + 20000 random histories (<= 25 ops); cases that need a patch of "
             "docs/C05_*.diff are left out while its PATCHED_ switch is off (shape F: source data for mpt_buffer_set, "
             "buffer::copy, shared or immutable buffers without BufferNoCopy; shape I: immutable buffers); the class template "
@@ -506,7 +601,9 @@ class C05(DiffProperty):
             "(PATCHED_REFARRAY_SIZE); a case is non-trivial "
             "when it runs at least one operation (all are); distinct = distinct case text")
     modelled = ("mptcore/array/buffer_set.c, buffer_cut.c, buffer_insert.c, buffer_alloc.c (alloc size, get_flags, addref, unref, detach), "
-                "array_reserve.c, array_clone.c; mpt++/array.cpp buffer::trim/skip/append/copy/move; mptcore/array.h "
+                "array_reserve.c, array_clone.c; mpt++/array.cpp buffer::trim/skip/append/copy/move (move = finaliser on "
+                "every target element, memcpy of the source's element bytes = the same tokens, source _used = 0 without any "
+                "call; copy = mpt_buffer_set(this, traits, 0, source elements) + trim of the rest); mptcore/array.h "
                 "content<T>::set_length, unique_array<T>::reserve/insert/resize transcribed in coq/C05/TypedModel.v (byte offsets, "
                 "element slots carrying tokens, ghost event log, constructor failure script), with the SHAPE of the content traits "
                 "as a parameter (which branches run the init loop / the zero fill / the finaliser loops); mpt_buffer_set and the "
@@ -542,7 +639,15 @@ class C05(DiffProperty):
                   "once), C05_shared_copy_constructs (detach of a shared typed buffer logs exactly one Init-from per element, fresh "
                   "tokens, source untouched; traits with init function), C05_shared_noinit_refused (fini-only traits: detach of a shared "
                   "buffer with elements is refused and nothing changes, no bytes duplicated), C05_step_never_faults, "
-                  "C05_monitor_sound, C05_monitor_nofini_complete - every theorem over an environment e holds for all three shapes of "
+                  "C05_monitor_sound, C05_monitor_nofini_complete, C05_move_finalises_target_takes_source (buffer::move "
+                  "between two different typed buffers of the same traits after any history, any fill of both: exactly one "
+                  "destructor call per element the target held, first to last, nothing else logged, the target then holds "
+                  "the source's tokens, the source is empty, nothing else changes), C05_move_refused_changes_nothing (self "
+                  "move, other traits, block too small: no event, no change), C05_copy_finalises_target_constructs_copies "
+                  "(traits with init: destructor calls for the first n target elements, one copy construction per source "
+                  "element in order with fresh tokens, destructor calls for the rest of the target; source untouched), "
+                  "C05_copy_noinit_refused (fini-only traits, source with elements: refused, nothing changes) "
+                  "- every theorem over an environment e holds for all three shapes of "
                   "the content traits (eshape e: init+fini, fini only with zero-filled gaps adopted as empty elements, init only "
                   "with ghost abandon steps); the model is tied to the code on every run by "
                   "differential execution of histories (events compared one by one, state read back, live set empty at the end) under "
@@ -634,6 +739,9 @@ class C05(DiffProperty):
         names = [o[0] for o in ops]
         if "cln" in names:
             cl.add("shared")
+        if names.count("new") >= 2 and ("mov" in names or "cpy" in names):
+            # buffer::move / copy with two buffers in play (fill combinations: pair_cases)
+            cl.add("two-buffers:" + "+".join(n for n in ("mov", "cpy") if n in names))
         if len(ops) > 3:
             cl.add("history>3")
         cl.add(("libtype:" if hdr[0][0] == "L" else "size:") + hdr[0])
@@ -649,7 +757,7 @@ class C05(DiffProperty):
     def generate(self, rng, tier):
         cases = []
         for sh in SHAPES:
-            cases += sweep_cases(tier, sh) + stale_cases(tier, sh) + imm_cases(tier, sh)
+            cases += sweep_cases(tier, sh) + stale_cases(tier, sh) + imm_cases(tier, sh) + pair_cases(tier, sh)
         n = 2500 if tier == "quick" else 60000
         mo = 14 if tier == "quick" else 25
         for i in range(n):
@@ -661,6 +769,15 @@ class C05(DiffProperty):
         for i in range(500 if tier == "quick" else 20000):
             cases.append(gen_case(rng, maxops=mo, shape="I"))
         cases += ref_cases(rng, tier)
+        # two or three filled buffers, buffer::move / copy between different handles (all shapes, library types)
+        for i in range(1500 if tier == "quick" else 30000):
+            kind = i % 6
+            if kind < 3:
+                cases.append(gen_case(rng, maxops=mo, shape=SHAPES[kind], pair=True))
+            elif kind < 5:
+                cases.append(gen_case(rng, maxops=mo, shape=SHAPES[kind - 3], pair=True, fail=False))
+            else:
+                cases.append(gen_case(rng, maxops=mo, lib=LIBTYPES[(i // 6) % len(LIBTYPES)], pair=True))
         return cases
 
     # -- two passes: the specification monitor judges the log the implementation printed
